@@ -4,7 +4,8 @@
    point, including the three points inside one atomic write); [run_prefix k] performs the first k
    of them: the world after a process abort, or an injected I/O error, at fault point k.
    A crash is modelled at operation granularity (no torn single write, no lost rename). *)
-From AP Require Import Base.Str Gen.Tables Model.Deploy Model.Crash Proofs.DeployP Proofs.ConvergeP Proofs.CrashP.
+From AP Require Import Base.Str Gen.Tables Model.Deploy Model.Crash Proofs.DeployP Proofs.ConvergeP Proofs.CrashP
+  Proofs.RerunP Proofs.RerunCrashP Proofs.WfDec.
 Open Scope N_scope.
 
 (* the complete sequence computes exactly the files of apply_plan (ties the step model to the
@@ -63,6 +64,49 @@ Proof.
   intros st confirmed adopt flt w roots D pl w' H HD HM. exact (proj1 (deploy_converged _ _ _ _ _ _ _ _ _ H HD HM)).
 Qed.
 Print Assumptions C07_rerun_converges_partial.
+
+(* THE RE-RUN, at full strength: from the state left by an interruption at ANY fault point k of the
+   operation sequence (snapshot record not yet visible), re-running the same confirmed deploy
+   succeeds — it applies, or finds nothing left to do — and ends in the final state of the
+   uninterrupted run: every file that is not a manifest is identical, and every root's manifest
+   lists exactly the same files (a manifest that lists nothing and an absent one both list nothing;
+   generated_at / snapshot_id are not part of the model).  For every world, every desired state,
+   every target filter, every k.  The three defects K7c, K7d, K7e repaired in /repo were each a
+   counterexample to this statement. *)
+Theorem C07_rerun_converges : forall w roots D flt k st adopt,
+  wfD roots D -> wfM D (managed_for_plan w roots flt) ->
+  let pl := plan (files w) D (managed_for_plan w roots flt) in
+  (has_adopt pl = false \/ adopt = true) ->
+  let w1 := apply_plan KDeploy w roots D pl in
+  let wc := {| files := cfiles (run_prefix k (steps_of_apply (files w) roots D pl) (init_state (files w)));
+               snaps := snaps w |} in
+  let res := deploy_cmd st true adopt flt wc roots D in
+  (fst (snd res) = OApplied \/ fst (snd res) = ONoChanges) /\
+  (forall p, is_manifest_path p = false -> files (snd (snd res)) p = files w1 p) /\
+  (forall r, In r roots ->
+     forall tp, In tp (root_managed (files (snd (snd res))) r) <-> In tp (root_managed (files w1) r)).
+Proof.
+  intros w roots D flt k st adopt HD HM pl Hg w1 wc res.
+  exact (rerun_after_crash w roots D flt HD HM k st adopt Hg).
+Qed.
+Print Assumptions C07_rerun_converges.
+
+(* its hypotheses hold on a concrete plan with an update, a create and a delete (38 fault points);
+   the re-run applies from every crash point but the last ones, where nothing is left to do *)
+Example C07_rerun_nonvacuous :
+  let r := Build_root (s "codex") [s "h"; s "p"] true in
+  let pa := [s "h"; s "p"; s "a.md"] in let pb := [s "h"; s "p"; s "b.md"] in let pc := [s "h"; s "p"; s "c.md"] in
+  let man := FMan (Parsed 1 (s "codex") [(s "a.md", 1); (s "c.md", 3)]) in
+  let f : fs := upd (upd (upd (fun _ => None) (mf_path r) (Some man)) pa (Some (FBytes 1))) pc (Some (FBytes 3)) in
+  let w := Build_world f [] in
+  let D := [Build_dfile (s "codex") pa 9 []; Build_dfile (s "codex") pb 2 []] in
+  let pl := plan f D (managed_for_plan w [r] None) in
+  let out k := fst (snd (deploy_cmd SJsonYes true false None
+                 {| files := cfiles (run_prefix k (steps_of_apply f [r] D pl) (init_state f)); snaps := [] |} [r] D)) in
+  wfD_b [r] D = true /\ wfM_b D (managed_for_plan w [r] None) = true /\ has_adopt pl = false /\
+  length (filter (fun k => match out k with OApplied => true | _ => false end) (seq 0 39)) = 22%nat /\
+  length (filter (fun k => match out k with ONoChanges => true | _ => false end) (seq 0 39)) = 17%nat.
+Proof. vm_compute. repeat split; reflexivity. Qed.
 
 (* regression witness of the repaired defect K7c (/repo commit "a stale or unreadable target manifest
    is rewritten by the next deploy"): after a crash between the last file write and the manifest
